@@ -18,7 +18,7 @@ ID = "C01"
 LEVEL = "exploration"
 DESIGN_REF = "DESIGN.md §4 C01"
 RULE = (
-    "cases = (config: recursive, str|bytes root, read-buffer size; initial tree; list of bursts of ops with "
+    "cases = (config: recursive, str|bytes root, read-buffer size, normal|generate_full_events emitter; initial tree; list of bursts of ops with "
     "micro-sleeps); random part: Hypothesis histories of 1-4 (quick) / 1-8 (thorough) bursts of <= 6 ops over names "
     "{a,b,c}, depth <= 3, with files and pre-built trees in out/ to move in; exhaustive part: every valid history of "
     "length <= 2 over names {a,ab} (one a prefix of the other), depth <= 2 from 3 start states, each back-to-back (where the pacing rule allows) and "
@@ -194,6 +194,7 @@ def cases(draw, tier, opts_extra=None):
         "recursive": draw(st.sampled_from([True, True, False])),
         "bytes": draw(st.sampled_from([False, False, True])),
         "bufsize": draw(st.sampled_from(BUFSIZES)),
+        "full": draw(st.sampled_from([False, False, True])),
     }
     opts = {"max_bursts": 4 if tier == "quick" else 8, "max_ops": 6}
     if opts_extra:
@@ -254,7 +255,7 @@ def shards(tier, seed):
 
 def _record(st_, case, n, every):
     nt, cl = is_nontrivial(case)
-    cfgc = [("recursive" if case["cfg"]["recursive"] else "non-recursive"), ("bytes" if case["cfg"].get("bytes") else "str"), f"buf={case['cfg'].get('bufsize')}"]
+    cfgc = [("recursive" if case["cfg"]["recursive"] else "non-recursive"), ("bytes" if case["cfg"].get("bytes") else "str"), f"buf={case['cfg'].get('bufsize')}", "full-emitter" if case["cfg"].get("full") else "normal-emitter"]
     if arrive_then_rename(case):
         cl.append("arrive-then-rename")
     st_.case([case["cfg"], fsops.normalized_history(case)], nt, cl + cfgc, sample=case if n % every == 1 else None)
@@ -267,7 +268,7 @@ def run_shard(spec):
         maxlen = 2
         n = 0
         st_.exhaustive = True
-        cfgs = [{"recursive": True}, {"recursive": False}] if tier == "thorough" else [{"recursive": True}]
+        cfgs = [{"recursive": True}, {"recursive": False}, {"recursive": True, "full": True}] if tier == "thorough" else [{"recursive": True}, {"recursive": True, "full": True}]
         for k, (init, bursts) in enumerate(exhaustive_histories(maxlen)):
             if k % NSH != i:
                 continue
